@@ -1,7 +1,7 @@
 (* C06 — the schema parser: what is proved about acceptance.  Statements only. *)
 From Coq Require Import List.
 From GQL.model Require Import Base Utf8 Lexer Ast Parser Prog ParseQuery ParseSchema.
-From GQL.proofs Require Import ParserTotal ParseSchemaTotal NumberGrammar TypeRoundtrip TokenStream JsonRoundtrip ParseComplete ParseSchemaComplete.
+From GQL.proofs Require Import ParserTotal ParseSchemaTotal NumberGrammar TypeRoundtrip TokenStream JsonRoundtrip ParseComplete ParseSchemaComplete Sizes SchemaSizes.
 Import ListNotations.
 
 (* A schema document is returned only after the parser has been handed the end-of-input token, with
@@ -52,6 +52,14 @@ Theorem C06_grammatical_documents_are_parsed : forall d items input fuel ix bi,
                  /\ erase_sdoc doc' = erase_sdoc (with_builtin bi (sdoc_of items)).
 Proof. exact parseSchema_complete. Qed.
 Print Assumptions C06_grammatical_documents_are_parsed.
+
+(* The same for the entry point as it is: the fuel parseSchema gives itself (2*|input|+8) always suffices,
+   so the size conditions disappear and only the intrinsic ones remain (item_wok). *)
+Theorem C06_grammatical_documents_are_parsed_by_parseSchema : forall d items input ix bi,
+  Forall (item_wok d) items -> (items <> [] \/ d F_S7 = true) -> toks d input (flat_map flat_item items) ->
+  exists doc', parseSchema d 0 ix bi input = POk doc' /\ erase_sdoc doc' = erase_sdoc (with_builtin bi (sdoc_of items)).
+Proof. exact parseSchema_complete_entry. Qed.
+Print Assumptions C06_grammatical_documents_are_parsed_by_parseSchema.
 
 (* one production on its own: a type definition or extension of any kind, in front of any continuation
    that starts like a definition *)
